@@ -411,4 +411,144 @@ def substringAfterC (col : Collation) (arg1 arg2 : Str) : Str :=
   | none => []
   | some index => arg1.drop (index + arg2.length)
 
+/-! ## xpath31/_xpath31_functions.py: `evaluate__contains_token` (after fix F09h) -/
+
+/-- CPython: `s.strip(' \t\n\r')` -/
+def pyStripWs (s : Str) : Str :=
+  ((s.dropWhile FOStrings.isWs).reverse.dropWhile FOStrings.isWs).reverse
+
+/-- CPython: `re.split('[ \t\n\r]+', s)` — split at every maximal run of the four characters; a run
+at either end leaves an empty string there -/
+def reSplitWs : Str → List Str
+  | [] => [[]]
+  | [c] => if FOStrings.isWs c then [[], []] else [[c]]
+  | c :: d :: cs =>
+    if FOStrings.isWs c then
+      (if FOStrings.isWs d then reSplitWs (d :: cs) else [] :: reSplitWs (d :: cs))
+    else
+      match reSplitWs (d :: cs) with
+      | [] => [[c]]
+      | w :: ws => (c :: w) :: ws
+
+/-- `CollationManager.eq` on two strings: `self.strcoll(a, b) == 0` -/
+def eqC (col : Collation) (a b : Str) : Bool := compareC col a b == 0
+
+/-- `evaluate__contains_token`:
+```
+token_string = token_string.strip(' \t\n\r')
+for input_string in self[0].select(context):
+    if any(x and manager.eq(token_string, x) for x in re.split('[ \t\n\r]+', input_string)):
+        return True
+else: return False
+``` -/
+def containsToken (col : Collation) (input : List Str) (tokenString : Str) : Bool :=
+  let tokenString := pyStripWs tokenString
+  input.any fun inputString =>
+    (reSplitWs inputString).any fun x => !x.isEmpty && eqC col tokenString x
+
+/-! ## xpath_tokens/base.py: `XPathToken.string_value` of booleans and numbers
+(the conversion applied by `concat`, `string()` and — for the XPath 1.0 parser — by `get_argument(…,
+cls=str)` to every non-string argument of the string functions) -/
+
+open EPV.FOStrings (NumArg digitChars natDigits zeros)
+
+/-- CPython: `str.rstrip(ch)` for a single character -/
+def pyRstrip (ch : Nat) (s : Str) : Str := (s.reverse.dropWhile (· == ch)).reverse
+
+/-- the positional layout shared by `float.__repr__` and `Decimal.__format__(…, 'f')`:
+integer part and fractional part of the digit string `ds` with the point after `dot` digits -/
+def positional (ds : List Nat) (dot : Int) : List Nat × List Nat :=
+  if dot ≤ 0 then ([0], zeros (-dot).toNat ++ ds)
+  else if dot ≥ ds.length then (ds ++ zeros (dot - ds.length).toNat, [])
+  else (ds.take dot.toNat, ds.drop dot.toNat)
+
+/-- CPython `float_repr` → `format_float_short(x, 'r', 0, Py_DTSF_ADD_DOT_0)` on the shortest digit
+string `digits` (from `_Py_dg_dtoa` mode 0) with decimal point position `decpt`:
+exponent notation iff `decpt <= -4 or decpt > 16`, two exponent digits at least, `.0` appended to an
+integer in positional notation. -/
+def pyFloatRepr (neg : Bool) (digits : List Nat) (decpt : Int) : Str :=
+  let sign : Str := if neg then [0x2D] else []
+  if decpt ≤ -4 ∨ decpt > 16 then
+    let mant : Str :=
+      match digits with
+      | [] => []
+      | [d] => digitChars [d]
+      | d :: ds => digitChars [d] ++ [0x2E] ++ digitChars ds
+    let e := decpt - 1
+    let ed := natDigits e.natAbs
+    let ed := if ed.length < 2 then 0 :: ed else ed
+    sign ++ mant ++ [0x65] ++ [if e < 0 then 0x2D else 0x2B] ++ digitChars ed
+  else
+    let (ip, fp) := positional digits decpt
+    sign ++ digitChars ip ++ [0x2E] ++ digitChars (if fp.isEmpty then [0] else fp)
+
+/-- CPython `Decimal.__format__(self, 'f')` for a finite value with coefficient digits `ds` (`self._int`)
+("zeros with a positive exponent can't be represented in fixed point; rescale them to 0e0") -/
+def pyDecimalF (neg : Bool) (ds : List Nat) (exp : Int) : Str :=
+  let exp := if ds.all (· == 0) ∧ exp > 0 then 0 else exp
+  let (ip, fp) := positional ds (ds.length + exp)
+  (if neg then [0x2D] else []) ++ digitChars ip ++ (if fp.isEmpty then [] else 0x2E :: digitChars fp)
+
+/-- `XPathToken.string_value(obj)` for `bool`, `int`, `Decimal`, `float`:
+```
+elif isinstance(obj, bool): return 'true' if obj else 'false'
+elif isinstance(obj, Decimal):
+    value = format(obj, 'f')
+    if '.' in value: value = value.rstrip('0').rstrip('.')
+    return '0' if value == '-0' else value
+elif isinstance(obj, float):
+    if math.isnan(obj): return 'NaN'
+    elif math.isinf(obj): return str(obj).upper()
+    value = str(obj)
+    if '.' in value and 'e' not in value: value = value.rstrip('0').rstrip('.')
+    if '+' in value: value = value.replace('+', '')
+    if 'e' in value: return value.upper()
+    return value
+return str(obj)
+``` -/
+def stringValue : NumArg → Str
+  | .bool true => [116, 114, 117, 101]
+  | .bool false => [102, 97, 108, 115, 101]
+  | .int v => (if v < 0 then [0x2D] else []) ++ digitChars (natDigits v.natAbs)      -- str(int)
+  | .dec neg digits exp =>
+    let value := pyDecimalF neg digits exp
+    let value := if value.contains 0x2E then pyRstrip 0x2E (pyRstrip 0x30 value) else value
+    if value = [0x2D, 0x30] then [0x30] else value
+  | .fnan => [78, 97, 78]
+  | .finf false => [73, 78, 70]             -- 'inf'.upper()
+  | .finf true => [0x2D, 73, 78, 70]
+  | .flt neg digits decpt =>
+    let value := pyFloatRepr neg digits decpt
+    let value := if value.contains 0x2E && !value.contains 0x65 then pyRstrip 0x2E (pyRstrip 0x30 value) else value
+    let value := value.filter (· != 0x2B)                                   -- replace('+', '')
+    if value.contains 0x65 then value.map fun c => if c = 0x65 then 0x45 else c    -- upper(): only 'e' is a letter
+    else value
+
+/-- Trigger predicate of known finding F09g (XPath 1.0 parser only): the float is infinite, negative
+zero, or CPython prints it in exponent notation (`decpt <= -4 or decpt > 16`, i.e. 0 < |x| < 1e-4 or
+|x| >= 1e16) — the cases where `string_value` keeps the XPath 2.0 / Python text (`INF`, `-0`, `1E16`)
+although XPath 1.0 prescribes `Infinity`, `0` and the decimal form without exponent. -/
+def xp1Trigger : NumArg → Bool
+  | .finf _ => true
+  | .flt neg digits decpt => (neg && digits.all (· == 0)) || decide (decpt ≤ -4) || decide (decpt > 16)
+  | _ => false
+
+/-! ## case tables as data (regenerated from the live CPython into `EPV/Gen/C09Case.lean`) -/
+
+/-- a mapping table lists only the code points whose mapping differs from the identity -/
+def lookupNat (c : Nat) : List (Nat × Str) → Option Str
+  | [] => none
+  | (k, v) :: es =>
+    match Nat.beq k c with       -- `Nat.beq`: evaluated natively by the kernel (`decide +kernel` over the tables)
+    | true => some v
+    | false => lookupNat c es
+
+def tableFun (t : List (Nat × Str)) (c : Nat) : Str :=
+  match lookupNat c t with
+  | some v => v
+  | none => [c]
+
+/-- membership in a list of inclusive code point ranges -/
+def inRanges (rs : List (Nat × Nat)) (c : Nat) : Bool := rs.any fun r => r.1 ≤ c && c ≤ r.2
+
 end EPV.Strings
